@@ -19,7 +19,7 @@ func newGen(seed uint64) *gen {
 	return &gen{r: rand.New(rand.NewPCG(seed, seed*0x9e3779b97f4a7c15+1))}
 }
 
-func (g *gen) n(n int) int      { return g.r.IntN(n) }
+func (g *gen) n(n int) int         { return g.r.IntN(n) }
 func (g *gen) p(num, den int) bool { return g.r.IntN(den) < num }
 func pick[T any](g *gen, xs []T) T { return xs[g.r.IntN(len(xs))] }
 
